@@ -3,7 +3,11 @@
 package actor
 
 import (
+	"fmt"
+	"reflect"
+	"sync"
 	"time"
+	"unsafe"
 
 	"github.com/kercylan98/vivid"
 	"github.com/kercylan98/vivid/internal/future"
@@ -11,16 +15,40 @@ import (
 
 // This file is injected by the verification harness (go build -overlay). It only adds read accessors and
 // thin wrappers around unexported functions of the package; it changes nothing.
+//
+// The Ask registry (System.futureAgents and whatever guards it) is read through reflection: the accessors do not
+// depend on its concrete type (a map of maps under one mutex today; a sync.Map of per-asker tables with their own
+// mutexes, a flat map keyed by the future path ... tomorrow), only on the facts that System has a field named
+// futureAgents, that it is built from maps / sync.Maps / structs / pointers, and that its string keys are actor paths
+// (asker path first, future path last). A refactoring of the registry therefore does not stop the harness from building.
 
 // XVNewBareSystem builds a System that is never started: just the option block and the future tables, with a
 // root context whose mailbox is the given sink (findMailbox falls back to it when a path is not registered).
 func XVNewBareSystem(rootSink vivid.Mailbox) *System {
 	sys := &System{
-		options:      vivid.NewActorSystemOptions(),
-		futureAgents: make(map[vivid.ActorPath]map[vivid.ActorPath]*AgentRef),
+		options: vivid.NewActorSystemOptions(),
 	}
+	xvInitContainer(reflect.ValueOf(sys).Elem().FieldByName("futureAgents"))
 	sys.Context = XVNewBareContext(sys, "/", rootSink)
 	return sys
+}
+
+// xvInitContainer makes a nil map (or a nil pointer to a struct) field usable, whatever its type.
+func xvInitContainer(f reflect.Value) {
+	if !f.IsValid() || !f.CanAddr() {
+		return
+	}
+	w := reflect.NewAt(f.Type(), unsafe.Pointer(f.UnsafeAddr())).Elem()
+	switch f.Kind() {
+	case reflect.Map:
+		if f.IsNil() {
+			w.Set(reflect.MakeMap(f.Type()))
+		}
+	case reflect.Pointer:
+		if f.IsNil() && f.Type().Elem().Kind() == reflect.Struct {
+			w.Set(reflect.New(f.Type().Elem()))
+		}
+	}
 }
 
 // XVNewBareContext builds a context that only has what ask / tell / findMailbox touch.
@@ -79,19 +107,195 @@ func XVLookup(sys *System, path string) (kind int, ctx *Context, fut *future.Fut
 	return 0, nil, nil
 }
 
-// XVAgentRegistered reports whether futureAgents still lists futurePath (under any agent).
+// ---- the Ask registry, read through reflection ----
+
+// XVRegistryEntry is one thing found in the Ask registry: Keys is the chain of string keys that leads to it (asker path
+// first, future path last when the registry is keyed by both); Empty marks a container (inner map / table) that is
+// registered under Keys but holds nothing.
+type XVRegistryEntry struct {
+	Keys  []string
+	Empty bool
+}
+
+var (
+	xvSyncMapType = reflect.TypeOf(sync.Map{})
+	xvMutexType   = reflect.TypeOf(sync.Mutex{})
+	xvRWMutexType = reflect.TypeOf(sync.RWMutex{})
+)
+
+// XVRegistryBlocking: true (default) = the walker takes the mutexes it finds (real-time harnesses, the registry is in
+// use); false = it only tries them (controlled scheduler: every goroutine is parked, possibly inside a section).
+var XVRegistryBlocking = true
+
+func xvLock(v reflect.Value) (unlock func()) {
+	if !v.CanAddr() {
+		return func() {}
+	}
+	p := unsafe.Pointer(v.UnsafeAddr())
+	switch v.Type() {
+	case xvMutexType:
+		m := (*sync.Mutex)(p)
+		if XVRegistryBlocking {
+			m.Lock()
+			return m.Unlock
+		}
+		if m.TryLock() {
+			return m.Unlock
+		}
+	case xvRWMutexType:
+		m := (*sync.RWMutex)(p)
+		if XVRegistryBlocking {
+			m.RLock()
+			return m.RUnlock
+		}
+		if m.TryRLock() {
+			return m.RUnlock
+		}
+	}
+	return func() {}
+}
+
+func xvIsContainer(t reflect.Type, depth int) bool {
+	if depth > 4 {
+		return false
+	}
+	switch t.Kind() {
+	case reflect.Map:
+		return true
+	case reflect.Pointer, reflect.Interface:
+		if t.Kind() == reflect.Pointer {
+			return xvIsContainer(t.Elem(), depth+1)
+		}
+		return true // decided on the dynamic value
+	case reflect.Struct:
+		if t == xvSyncMapType {
+			return true
+		}
+		if t == reflect.TypeOf(AgentRef{}) || t == reflect.TypeOf(Ref{}) {
+			return false
+		}
+		for i := 0; i < t.NumField(); i++ {
+			ft := t.Field(i).Type
+			if ft.Kind() == reflect.Map || ft == xvSyncMapType {
+				return true
+			}
+		}
+	}
+	return false
+}
+
+func xvKeyString(k reflect.Value) string {
+	if k.Kind() == reflect.String {
+		return k.String()
+	}
+	return fmt.Sprint(k)
+}
+
+// xvWalk visits everything below v; keys is the chain of keys so far. It returns the number of leaves / empties found.
+func xvWalk(v reflect.Value, keys []string, depth int, out *[]XVRegistryEntry) int {
+	if depth > 6 || !v.IsValid() {
+		return 0
+	}
+	switch v.Kind() {
+	case reflect.Interface, reflect.Pointer:
+		if v.IsNil() {
+			return 0
+		}
+		if v.Kind() == reflect.Pointer && !xvIsContainer(v.Type().Elem(), 0) {
+			*out = append(*out, XVRegistryEntry{Keys: append([]string(nil), keys...)})
+			return 1
+		}
+		return xvWalk(v.Elem(), keys, depth+1, out)
+	case reflect.Map:
+		n := 0
+		it := v.MapRange()
+		for it.Next() {
+			k := append(append([]string(nil), keys...), xvKeyString(it.Key()))
+			val := it.Value()
+			if xvIsContainer(val.Type(), 0) {
+				if c := xvWalk(val, k, depth+1, out); c == 0 {
+					*out = append(*out, XVRegistryEntry{Keys: k, Empty: true})
+				}
+			} else {
+				*out = append(*out, XVRegistryEntry{Keys: k})
+			}
+			n++
+		}
+		return n
+	case reflect.Struct:
+		if v.Type() == xvSyncMapType {
+			if !v.CanAddr() {
+				return 0
+			}
+			m := (*sync.Map)(unsafe.Pointer(v.UnsafeAddr()))
+			n := 0
+			m.Range(func(key, val any) bool {
+				k := append(append([]string(nil), keys...), fmt.Sprint(key))
+				rv := reflect.ValueOf(val)
+				if rv.IsValid() && xvIsContainer(rv.Type(), 0) {
+					if c := xvWalk(rv, k, depth+1, out); c == 0 {
+						*out = append(*out, XVRegistryEntry{Keys: k, Empty: true})
+					}
+				} else {
+					*out = append(*out, XVRegistryEntry{Keys: k})
+				}
+				n++
+				return true
+			})
+			return n
+		}
+		// a table: take its mutexes, walk its maps
+		var unlocks []func()
+		for i := 0; i < v.NumField(); i++ {
+			if t := v.Field(i).Type(); t == xvMutexType || t == xvRWMutexType {
+				unlocks = append(unlocks, xvLock(v.Field(i)))
+			}
+		}
+		n := 0
+		for i := 0; i < v.NumField(); i++ {
+			f := v.Field(i)
+			if f.Kind() == reflect.Map || f.Type() == xvSyncMapType {
+				n += xvWalk(f, keys, depth+1, out)
+			}
+		}
+		for _, u := range unlocks {
+			u()
+		}
+		return n
+	}
+	return 0
+}
+
+// XVRegistry dumps the Ask registry (System.futureAgents), whatever its shape. ok = false: System has no such field any
+// more (the accessor-dependent monitors must then stay silent).
+func XVRegistry(sys *System) (entries []XVRegistryEntry, ok bool) {
+	sv := reflect.ValueOf(sys).Elem()
+	f := sv.FieldByName("futureAgents")
+	if !f.IsValid() {
+		return nil, false
+	}
+	// the system-wide lock of the registry, if there is one
+	unlock := func() {}
+	if l := sv.FieldByName("futureLock"); l.IsValid() {
+		unlock = xvLock(l)
+	}
+	defer unlock()
+	xvWalk(f, nil, 0, &entries)
+	return entries, true
+}
+
+// XVAgentRegistered reports whether the Ask registry still lists futurePath (under any asker).
 func XVAgentRegistered(sys *System, futurePath string) bool {
-	sys.futureLock.Lock()
-	defer sys.futureLock.Unlock()
-	for _, m := range sys.futureAgents {
-		if _, ok := m[futurePath]; ok {
+	es, _ := XVRegistry(sys)
+	for _, e := range es {
+		if !e.Empty && len(e.Keys) > 0 && e.Keys[len(e.Keys)-1] == futurePath {
 			return true
 		}
 	}
 	return false
 }
 
-// XVRegistryCounts: entries of actorContexts (all / futures only) and entries of futureAgents (inner maps summed).
+// XVRegistryCounts: entries of actorContexts (all / futures only) and entries of the Ask registry (leaves).
 func XVRegistryCounts(sys *System) (contexts int, futures int, agents int) {
 	sys.actorContexts.Range(func(_, v any) bool {
 		contexts++
@@ -100,10 +304,11 @@ func XVRegistryCounts(sys *System) (contexts int, futures int, agents int) {
 		}
 		return true
 	})
-	sys.futureLock.Lock()
-	defer sys.futureLock.Unlock()
-	for _, m := range sys.futureAgents {
-		agents += len(m)
+	es, _ := XVRegistry(sys)
+	for _, e := range es {
+		if !e.Empty {
+			agents++
+		}
 	}
 	return
 }
